@@ -53,6 +53,77 @@ def fn_table():
 N_PLAIN_FNS = 8 + len(FIXED_FNS)
 
 
+def sig_cases():
+    """The SAME Python callable (vhelp.sig<k>, an alias of rep) bound under two Go signatures, in BOTH reference orders.
+    -> [(scope, first, second, nv)]: signature = number of fixed parameters or 'v' (`__llgo_va_list ...any`); nv = number of
+    arguments a variadic binding is called with.  scope 'pkg': both bindings in one binding package, referenced by ONE function
+    of package vsig in straight-line order first, second (the callable is referenced nowhere else in that package, so `first`
+    is what the compiler sees first); 'twobind': the bindings live in two Go binding packages of the same Python module;
+    'xpkg': `first` is referenced only in package vsa, `second` only in package vsb."""
+    out = []
+    nvs = [4, 0, 1, 6, 2, 3, 5]
+    for i in range(7):
+        for j in range(7):
+            if i != j:
+                out.append(("pkg", i, j, 0))
+    for f in range(7):
+        out += [("pkg", f, "v", nvs[f]), ("pkg", "v", f, nvs[(f + 3) % 7])]
+    out += [("pkg", 1, "v", 2), ("pkg", "v", 1, 2), ("pkg", 2, "v", 1), ("pkg", "v", 2, 6), ("pkg", 1, "v", 6), ("pkg", 2, "v", 4)]
+    out += [("twobind", 1, "v", 4), ("twobind", "v", 1, 4), ("twobind", 2, "v", 3), ("twobind", "v", 2, 3), ("twobind", 2, 1, 0), ("twobind", 1, 2, 0),
+            ("twobind", 0, 1, 0), ("twobind", 3, 0, 0)]
+    out += [("xpkg", 1, "v", 4), ("xpkg", "v", 1, 4), ("xpkg", 2, "v", 5), ("xpkg", "v", 2, 5), ("xpkg", 0, 3, 0), ("xpkg", 3, 0, 0),
+            ("xpkg", 1, 2, 0), ("xpkg", 2, 1, 0)]
+    return out
+
+
+def sig_nargs(sig, nv):
+    return nv if sig == "v" else sig
+
+
+def sig_sources(mod, enabled=None):
+    """Go sources of bsig, bsig2 (bindings), vsig, vsa, vsb (callers) and the dispatcher for package main;
+    enabled: set of case numbers to include (None = all; used to isolate a case the compiler chokes on)"""
+    cases = sig_cases()
+    d1, d2 = [], []
+    vs, va, vb = [], [], []
+    pair_sw, xa_sw, xb_sw = [], [], []
+
+    def call(pkg, name, sig, nv):
+        return "%s.%s(%s)" % (pkg, name, ", ".join("a[%d]" % i for i in range(sig_nargs(sig, nv))))
+    for k, (scope, f, g, nv) in enumerate(cases):
+        if enabled is not None and k not in enabled:
+            continue
+        d1.append(fn_decl("S%da" % k, "sig%d" % k, f))
+        (d2 if scope == "twobind" else d1).append(fn_decl("S%db" % k, "sig%d" % k, g))
+        bpk = "bsig2" if scope == "twobind" else "bsig"
+        if scope == "xpkg":
+            xa_sw.append("\tcase %d:\n\t\treturn %s" % (k, call("bsig", "S%da" % k, f, nv)))
+            xb_sw.append("\tcase %d:\n\t\treturn %s" % (k, call("bsig", "S%db" % k, g, nv)))
+        else:
+            vs.append("func p%d(a *[6]*py.Object) (x, y *py.Object) {\n\tx = %s\n\ty = %s\n\treturn\n}\n" %
+                      (k, call("bsig", "S%da" % k, f, nv), call(bpk, "S%db" % k, g, nv)))
+            pair_sw.append("\tcase %d:\n\t\treturn p%d(a)" % (k, k))
+    hdr = "// Code generated by /verif/harness/c19/gen.py. DO NOT EDIT.\npackage %s\n\nimport (\n%s)\n\n"
+    files = {"bsig/bsig.go": binding_src("bsig", "vhelp", d1), "bsig2/bsig2.go": binding_src("bsig2", "vhelp", d2)}
+    en = [c for k, c in enumerate(cases) if enabled is None or k in enabled]
+    u1 = "" if any(c[0] != "xpkg" for c in en) else "_ "
+    u2 = "" if any(c[0] == "twobind" for c in en) else "_ "
+    ux = "" if any(c[0] == "xpkg" for c in en) else "_ "
+    files["vsig/vsig.go"] = (hdr % ("vsig", '\t"github.com/goplus/lib/py"\n\t%s"%s/bsig"\n\t%s"%s/bsig2"\n' % (u1, mod, u2, mod)) + "\n".join(vs) +
+                             "\n// Pair calls both bindings of callable k, first-referenced binding first.\nfunc Pair(k int, a *[6]*py.Object) (x, y *py.Object) {\n\tswitch k {\n" +
+                             "\n".join(pair_sw) + "\n\t}\n\treturn nil, nil\n}\n")
+    for name, sw in (("vsa", xa_sw), ("vsb", xb_sw)):
+        files["%s/%s.go" % (name, name)] = (hdr % (name, '\t"github.com/goplus/lib/py"\n\t%s"%s/bsig"\n' % (ux, mod)) +
+                                            "// F calls this package's binding of callable k.\nfunc F(k int, a *[6]*py.Object) *py.Object {\n\tswitch k {\n" +
+                                            "\n".join(sw) + "\n\t}\n\treturn nil\n}\n")
+    disp = ["func sigPair(k int, a *[6]*py.Object) (x, y *py.Object) {", "\tswitch k {"]
+    xk = [k for k, c in enumerate(cases) if c[0] == "xpkg" and (enabled is None or k in enabled)]
+    if xk:
+        disp.append("\tcase %s:\n\t\treturn vsa.F(k, a), vsb.F(k, a)" % ", ".join(str(k) for k in xk))
+    disp += ["\t}", "\treturn vsig.Pair(k, a)", "}", ""]
+    return files, "\n".join(disp)
+
+
 # ------------------------------------------------------------------ shapes
 def make_shape(rng, idx=0):
     nmods = rng.randint(1, 4) if idx else 4
@@ -103,9 +174,11 @@ GO_ATTR = {"tag": "Tag", "rep": "Rep", "va": "Va", "vb": "Vb", "vc": "Vc", "__na
 def package_table(shape):
     """all generated packages, numbered topologically: [(go name, kind, info)]"""
     pk = [("vio", "plain", None), ("bh", "bind", "vhelp"), ("bops", "bind", "operator"), ("bblt", "bind", "builtins"), ("bmath", "bind", "math")]
+    pk += [("bsig", "bind", "vhelp"), ("bsig2", "bind", "vhelp")]
     for b in shape["bindings"]:
         pk.append((b["go"], "bind", shape["mods"][b["mod"]]))
     pk.append(("vdump", "plain", None))
+    pk += [("vsig", "plain", None), ("vsa", "plain", None), ("vsb", "plain", None)]
     for u in shape["users"]:
         pk.append((u["go"], "user", u))
     pk.append(("main", "user", shape["main"]))
@@ -146,7 +219,7 @@ def go_bytes_lit(b):
 
 def binding_src(go, mod, decls):
     L = ["// Code generated by /verif/harness/c19/gen.py. DO NOT EDIT.", "package %s" % go, "", "import (", '\t_ "unsafe"', "",
-         '\t"github.com/goplus/lib/py"', ")", "", 'const LLGoPackage = "py.%s"' % mod, ""]
+         '\t%s"github.com/goplus/lib/py"' % ("" if decls else "_ "), ")", "", 'const LLGoPackage = "py.%s"' % mod, ""]
     for d in decls:
         L.append(d)
     return "\n".join(L) + "\n"
@@ -450,6 +523,16 @@ func main() {
 			vdump.Dump(callFn(fn, n, &a))
 		case 'K':
 			vdump.Dump(bakedCase(int(vio.Uint())))
+		case 'G':
+			k := int(vio.Uint())
+			var a [6]*py.Object
+			for i := 0; i < 6; i++ {
+				a[i] = build()
+			}
+			x, y := sigPair(k, &a)
+			vdump.Dump(x)
+			print(" ")
+			vdump.Dump(y)
 		case 'U':
 			p := int(vio.Uint())
 			k := int(vio.Uint())
@@ -554,13 +637,14 @@ def tree_go(t, raw_ok):
     raise ValueError(k)
 
 
-def tables_src(mod, shape, baked):
+def tables_src(mod, shape, baked, sig_enabled=None):
     pk = package_table(shape)
     fns = fn_table()
     imps = {'"github.com/goplus/lib/py"', '"%s/bh"' % mod, '"%s/bops"' % mod, '"%s/bblt"' % mod, '"%s/bmath"' % mod}
     for u in shape["users"]:
         imps.add('"%s/%s"' % (mod, u["go"]))
-    L = ["func callFn(fn int, n int, a *[6]*py.Object) *py.Object {", "\tswitch fn {"]
+    imps |= {'"%s/vsig"' % mod, '"%s/vsa"' % mod, '"%s/vsb"' % mod}
+    L = [sig_sources(mod, sig_enabled)[1], "func callFn(fn int, n int, a *[6]*py.Object) *py.Object {", "\tswitch fn {"]
     for i, (gp, gn, pm, pa, ar) in enumerate(fns):
         L.append("\tcase %d:" % i)
         if ar == "v":
@@ -584,7 +668,7 @@ def tables_src(mod, shape, baked):
     return "\n".join(hdr + L) + "\n"
 
 
-def write_program(d, shape, mod, baked, gosrc, repo_gosum):
+def write_program(d, shape, mod, baked, gosrc, repo_gosum, sig_enabled=None):
     """writes the Go module; returns {relative path: content}"""
     files = {}
     files["go.mod"] = "module %s\n\ngo 1.24\n\nrequire github.com/goplus/lib v0.3.1\n" % mod
@@ -609,9 +693,10 @@ def write_program(d, shape, mod, baked, gosrc, repo_gosum):
         files["%s/%s.go" % (b["go"], b["go"])] = binding_src(b["go"], name, decls)
     for u in shape["users"]:
         files["%s/%s.go" % (u["go"], u["go"])] = user_src(mod, shape, u["go"], u, False)
+    files.update(sig_sources(mod, sig_enabled)[0])
     files["main.go"] = MAIN_STATIC.replace("@MOD@", mod)
     files["use_main.go"] = user_src(mod, shape, "main", shape["main"], True)
-    files["tables.go"] = tables_src(mod, shape, baked)
+    files["tables.go"] = tables_src(mod, shape, baked, sig_enabled)
     for rel, content in files.items():
         p = os.path.join(d, rel)
         os.makedirs(os.path.dirname(p), exist_ok=True)
@@ -775,7 +860,7 @@ def fn_args(rng, pm, pa, ar):
     return [num_arg(rng) for _ in range(ar)]
 
 
-def make_cases(rng, shape, baked, n_values, n_calls):
+def make_cases(rng, shape, baked, n_values, n_calls, sig_enabled=None):
     """-> list of dicts {op: stdin text, kind, oracle: json-able spec, model: modeld line or None}"""
     cases = []
     fns = fn_table()
@@ -810,6 +895,17 @@ def make_cases(rng, shape, baked, n_values, n_calls):
         cases.append({"kind": "dupsig", "op": "C %d %d %s" % (fi, len(args), " ".join(toks)),
                       "oracle": {"k": "call", "mod": "vhelp", "attr": "dup", "args": toks},
                       "model": "call %d 0 %d" % (len(args), len(args)), "fn": "vhelp.dup", "arity": len(args)})
+    # the same Python callable under two Go signatures, both reference orders, each binding called with its own arguments
+    for k, (scope, f, g, nv) in enumerate(sig_cases()):
+        if sig_enabled is not None and k not in sig_enabled:
+            continue
+        args = [("i", 100 + k), ("s", b"b%d" % k), ("f", 0x4004000000000000), ("i", -4 - k), ("l", [("i", 5), ("s", b"e")]), ("t", [("i", 6)])]
+        rng.shuffle(args)
+        toks = [tree_tokens(a) for a in args]
+        cases.append({"kind": "sigpair", "op": "G %d %s" % (k, " ".join(toks)),
+                      "oracle": {"k": "sigpair", "py": "sig%d" % k, "args": toks, "na": sig_nargs(f, nv), "nb": sig_nargs(g, nv)},
+                      "model": None, "sig": (scope, f, g, nv),
+                      "model_calls": ["call %d %d %d" % (1 if x == "v" else x, 1 if x == "v" else 0, sig_nargs(x, nv)) for x in (f, g)]})
     # baked (compiler-lowered literals)
     for k, t in enumerate(baked):
         tok = tree_tokens(t)
